@@ -44,11 +44,11 @@ def composeJulian (years ordinal : Int) : Option Int :=
 /-- inner.rs `jdn2julian` -/
 def jdn2julian (jd : Int) : Int × Int :=
   let (year, ordinal) := decomposeJulian jd
-  (year + JDN0_YEAR, ordinal)
+  (year + -4712, ordinal)
 
 /-- inner.rs `julian2jdn` (`checked_sub` fails iff `year - (-4712)` leaves i32) -/
 def julian2jdn (year ordinal : Int) : Option Int :=
-  if inI32 (year - JDN0_YEAR) then composeJulian (year - JDN0_YEAR) ordinal else none
+  if inI32 (year - -4712) then composeJulian (year - -4712) ordinal else none
 
 /-- inner.rs `jdn2gregorian` -/
 def jdn2gregorian (jd : Int) : Int × Int :=
